@@ -314,7 +314,7 @@ impl Scenario for OscScenario {
         if tier == "quick" {
             400_000
         } else {
-            10_000_000
+            40_000_000
         }
     }
     fn run(&self, src: &mut Source, obs: &mut Observer) -> Result<(), Violation> {
